@@ -567,7 +567,7 @@ def encode(root, **kw):
 # canonical form (identity aware)
 
 
-def canon(root, *, order_dicts=False, with_tags=True):
+def canon(root, *, order_dicts=False, with_tags=True, ituples=False):
   """DFS from the root in child order; memoizable objects are numbered at first visit and
   later visits print ('^', n); atoms print as tokens. Built recording results print callable +
   binding; functools.partial objects print (func, args, keywords)."""
@@ -583,6 +583,10 @@ def canon(root, *, order_dicts=False, with_tags=True):
         return atom_token(x)
     except TypeError:
       pass
+    if ituples and type(x) is tuple and is_internable(x):
+      # a tuple of literals: Python may merge equal ones (constant folding), so whether two
+      # positions hold "the same" such tuple is not an observable of a configuration
+      return ['ituple', [go(e) for e in x]]
     if id(x) in seen:
       return ['^', seen[id(x)]]
     n = counter[0]
